@@ -1,5 +1,5 @@
 //@ unit C03_cache
-//@ props C03 C05 C02
+//@ props C03 C05 C02 C01 C06
 //@ module src/font.rs
 //@ strength complete for LazyLoad::get_or_load (loop-free state machine, symbolic loader outcome); bounded for the glyph memo (one earlier call with any arguments on a Font built from a 32-byte cmap)
 //@ unverified lookup-list cache (get_lookups_cache_index: HashMap/BTreeMap, out of reach - key omits the feature-variation substitution, known from reading), ReadCache keyed by scope base, LayoutCacheData caches; byte-identical determinism of whole outputs (no contract shape)
